@@ -152,6 +152,9 @@ def call_builtin(it, name, pos, kw):
         items = it.concrete_items(pos[0])
         if items is not None:
             return list(reversed(items))
+        x = pos[0]
+        if isinstance(x, SymList):
+            return SymList(x.length, lambda i, x=x: x.item(T.sub(T.sub(x.length, 1), i)), kind="list")
         raise PathAbort("reversed of symbolic", ctx.cur_line)
     if name in ("tuple", "list"):
         if not pos:
@@ -173,7 +176,7 @@ def call_builtin(it, name, pos, kw):
                 sl.columns_of = src
             return sl
         if isinstance(x, SymList):
-            return x
+            return SymList(x.length, x.item, kind=name)
         raise PathAbort(f"{name}() of {type(x).__name__}", ctx.cur_line)
     if name == "int":
         x = pos[0] if pos else 0
@@ -365,6 +368,14 @@ def call_np(it, name, pos, kw):
     if name in ("asarray", "asfortranarray", "ascontiguousarray"):
         a = _arr(it, pos[0])
         return a
+    if name == "reshape":
+        a = _arr(it, pos[0])
+        shape = pos[1] if len(pos) > 1 else kw.get("newshape", kw.get("shape"))
+        if isinstance(shape, Arr) and shape.kind in ("tuple", "list") and isinstance(shape.shape[0], int):
+            shape = tuple(shape.fn(i) for i in range(shape.shape[0]))
+        if T.is_scalar(shape):
+            shape = (shape,)
+        return N.reshape(it, a, tuple(shape), kw.get("order", pos[2] if len(pos) > 2 else "C"))
     if name in ("zeros", "ones", "empty"):
         shape = pos[0] if pos else kw["shape"]
         d = dt or (N.parse_dtype(pos[1]) if len(pos) > 1 else None) or "real"
